@@ -25,11 +25,11 @@ Print Assumptions C18_ack_step_invariant.
 (* non-vacuity: a 19-byte head, acks 18+1+5 / 19+5 / 21+6 as in the boundary cases *)
 Example C18_nonvacuous :
   let s := fst (step {| version := nil; url_table := nil |}
-                     {| on_headers := fun _ => nil; on_ready := nil; on_finished := nil; hdr_after := false |}
+                     {| on_headers := fun _ _ => nil; on_ready := nil; on_finished := nil; hdr_after := false |}
                      init_sock Construct) in
   constructed s = true /\
   blen (response_head (code s) (reason s) (rh s)) = 19 /\
   written_sum (snd (run_ops_from {| version := nil; url_table := nil |}
-                     {| on_headers := fun _ => nil; on_ready := nil; on_finished := nil; hdr_after := false |}
+                     {| on_headers := fun _ _ => nil; on_ready := nil; on_finished := nil; hdr_after := false |}
                      0 (fst (write_headers s)) (Ack 18 :: App (AWrite (B "hello"%string)) :: Ack 1 :: Ack 5 :: nil))) = 5.
 Proof. vm_compute. repeat split. Qed.
